@@ -101,6 +101,75 @@ chk("C02",
     SCHEME_TRUST,
     "Lean 4 proof (per-scheme) + recorded-oracle differential correspondence + direct oracle on all nine schemes",
     "6/C02")
+chk("C03",
+    "Props/C03.lean: the concatenation wire formats of keys (all nine schemes) and tokens (seven schemes) are modelled (Model/Schemes/Wire.lean): "
+    "deserialize(serialize(x)) = x whenever the fields have the configured widths, any other total length is refused, a successful parse returns "
+    "exactly what was sent cut at the configured widths; generated keys and the tokens used by a successful search provably have those widths "
+    "(PiBas/PiPack, every accepted configuration, via the HMAC P_hash length theorem of C16). Search in the models is a function of the "
+    "deserialized objects only, so equal objects give equal results. Tie: the scheme correspondence (all nine schemes) + the direct oracle on "
+    "the real code: a FRESH scheme instance from the JSON round trip of the configuration, key / index / token / result deserialized from "
+    "bytes, every stored and adversarially close absent keyword searched through the split and compared with DB.get(w), then a second session "
+    "with a fresh key in the same process.",
+    SCHEME_TRUST + " pickle and json are library codecs (loads(dumps(x)) == x assumed, exercised by the direct oracle).",
+    "Lean 4 proof (wire formats) + recorded-oracle correspondence + direct oracle through the serialized split on all nine schemes",
+    "6/C03")
+chk("C04",
+    "Props/C04.lean: every ciphertext of the encryption wrapper starts with the 16 random bytes drawn for it, so different draws give different "
+    "ciphertexts whatever the keys and messages (one identifier under every keyword, the same database twice); in the counter-chain schemes "
+    "every stored value is such a ciphertext with its own draw (the tape is exactly the list of value prefixes), distinct draws give distinct "
+    "entries, and every stored key is a PRF output of a PRF-derived per-keyword key: keywords and identifiers enter the index only as arguments "
+    "of keyed primitives. Tie: the scheme correspondence reproduces every cell of the real index of all nine schemes from the recorded "
+    "leaves and draws (a cell holding a raw identifier, a keyless label or a reused IV is a disagreement). Direct oracle on the real code: "
+    "substring scan of the serialized index and tokens for >=6-byte keywords and 8-byte identifiers, pairwise distinct ciphertext entries with one "
+    "identifier under every keyword, disjoint entries of two setups of the same (key, database).",
+    SCHEME_TRUST + " 'No substring occurs' is a probability statement about pseudo-random bytes (chance < 2^-40): outside any theorem.",
+    "Lean 4 proof (structural: IV freshness => distinct ciphertexts, keys are PRF outputs) + recorded-oracle correspondence + byte-level scan of the real index",
+    "6/C04")
+chk("C05",
+    "Props/C05.lean: for the counter-chain schemes the multiset of (label length, value length) of the stored table is a function of the "
+    "configuration and the chunk lengths only; for PiBas it is N copies of one pair, so two databases with the same number of postings give "
+    "identically shaped indexes whatever their keywords, contents and list-length distributions (shape_indistinguishable). Other schemes: the "
+    "correspondence reproduces every cell INCLUDING padding cells (count and lengths) from the recorded draws, and the direct oracle builds, for "
+    "every generated database, a second valid database with the same public size parameter (SSE1: none; SSE2/PiBas/DP17: N; PiPack: blocks; "
+    "PiPtr: (blocks, pointer blocks); Pi2Lev: (keywords, array length); CT14/ANSS16: ceil(log2 N)) but other contents and list lengths, compares "
+    "the shapes of the real indexes and checks length uniformity inside every padded table.",
+    SCHEME_TRUST,
+    "Lean 4 proof (shape of the counter-chain index) + recorded-oracle correspondence incl. padding + shape comparison on pairs of real indexes",
+    "6/C05")
+chk("C06",
+    "Props/C06.lean: every label-addressed table of PiBas, PiPack, PiPtr, Pi2Lev, CT14 and ANSS16 is `buildTable` of a pair list (proved by "
+    "unfolding each setup); for every pair list with distinct labels the stored label sequence is sorted in Python's bytes order and depends "
+    "only on the SET of labels (bytes order proved total, transitive, antisymmetric; sorted permutations are equal); for PiBas/PiPack whole runs: "
+    "the same key on any permutation of the database, with any randomness, stores the same label sequence. Array placement (PiPtr/Pi2Lev sample, "
+    "SSE1 PRP, DP17 bucket choice and shuffle) is modelled and replayed cell by cell; that two setups differ is a statement about `random` and is "
+    "sampled by the direct oracle on databases with >= 12 array-resident blocks (one long list, three lists, many lists). Direct oracle (a): permute "
+    "the keyword order, all tables sorted, real labels in the same order.",
+    SCHEME_TRUST,
+    "Lean 4 proof (sorted storage, order-freeness of label sequences) + recorded-oracle correspondence of stored order and placement + direct oracle",
+    "6/C06")
+chk("C07",
+    "Props/C07.lean: in all nine models Search is a function of (index, token) returning only a result, so any history of searches - any order, "
+    "any repetition - answers each token as the single search does and leaves the index unchanged (history_independent, instantiated for the nine "
+    "schemes). Purity is true by construction in a functional model; that the CODE is pure is established on every run by the correspondence and "
+    "by the direct oracle on the real objects: deep copies of database / configuration dict / serialized key before and after EDBSetup, the "
+    "serialized index compared after every search of a random history (present, absent, repeated keywords) against one index object, every "
+    "answer compared with a single search on a freshly deserialized index, then a second index (fresh key, same or other database) built by the "
+    "same scheme object.",
+    SCHEME_TRUST,
+    "Lean 4 proof (history independence of pure search, all nine models) + recorded-oracle correspondence + before/after comparison on the real objects",
+    "6/C07")
+chk("C08",
+    "Props/C08.lean: for each of the nine configuration builders a configuration lacking (or marking -1) any parameter the builder reads is refused "
+    "with ValueError at configuration build; any zero or negative param_* number (other than the marker -1) is refused by every builder; for PiBas "
+    "every raw configuration is refused, or setup fails, or (under the no-collision hypotheses) every stored keyword's search returns exactly its "
+    "list. Tie: the models' builders against the real ones over a grid (every field deleted once; length fields over "
+    "{8,16,20,24,32,48,0,-1,-2}, block/capacity fields over {-8,-2,-1,0,1,2,3,5,64}, one non-integer each; every primitive name over aliases, another "
+    "primitive's name, unknown, empty): same accept/refuse decision at the same stage with the same error class and the same index/results when "
+    "accepted (non-integers: refused/accepted only). Direct oracle on the real code over the same grid: an exception somewhere, or every search "
+    "(stored and absent keywords) correct; missing needed parameter => refused by SSEConfig itself.",
+    SCHEME_TRUST + " Non-integer values of integer fields are outside the theorems (enumerated on the real code).",
+    "Lean 4 proof (refusal theorems for all nine builders, refused-or-correct for PiBas) + recorded-oracle correspondence over a configuration grid + direct oracle",
+    "6/C08")
 chk("C10",
     "The server program is EXTRACTED from frontend/server/** on every run (AST translator -> Generated/ServerIR.lean: guards and effects of the "
     "three handlers, the dispatch table, the constructor's load logic, close_service, the file-manager primitives, the manager's step order) and "
